@@ -5,6 +5,7 @@ import (
 	"container/list"
 	"fmt"
 	"os"
+	"time"
 
 	"github.com/6tail/lunar-go/SolarUtil"
 	"github.com/6tail/lunar-go/calendar"
@@ -143,6 +144,36 @@ func c15Months(c *ctx) {
 			seas = append(seas, obj{"m": m, "si": se.GetIndex(), "sm": a, "hi": hy.GetIndex(), "hm": b})
 		}
 		u["per"] = seas
+		// units built from a time.Time: the unit of the date the value itself shows (its own zone's wall clock),
+		// whatever zone the process runs in; each row pairs the object built from the value with the one built
+		// from the value's fields
+		fd := [][]interface{}{}
+		for _, off := range []int{14 * 3600, -12 * 3600, 0, 8 * 3600} {
+			loc := time.FixedZone("fixed", off)
+			for _, md := range [][4]int{{1, 1, 0, 30}, {12, 31, 23, 30}, {1 + c.rng.Intn(12), 1 + c.rng.Intn(28), c.rng.Intn(24), c.rng.Intn(60)}} {
+				if y < 1600 {
+					continue // time.Time is proleptic Gregorian: its fields name other days before the switch
+				}
+				t := time.Date(y, time.Month(md[0]), md[1], md[2], md[3], 7, 0, loc)
+				try(func() {
+					a, b := calendar.NewSolarFromDate(t), calendar.NewSolar(t.Year(), int(t.Month()), t.Day(), t.Hour(), t.Minute(), t.Second())
+					fd = append(fd, []interface{}{"Solar", off, sol(a), sol(b)})
+					w1, w2 := calendar.NewSolarWeekFromDate(t, 1), calendar.NewSolarWeekFromYmd(t.Year(), int(t.Month()), t.Day(), 1)
+					fd = append(fd, []interface{}{"SolarWeek", off, sol(w1.GetFirstDay()), sol(w2.GetFirstDay())})
+					m1, m2 := calendar.NewSolarMonthFromDate(t), calendar.NewSolarMonthFromYm(t.Year(), int(t.Month()))
+					fd = append(fd, []interface{}{"SolarMonth", off, []int{m1.GetYear(), m1.GetMonth()}, []int{m2.GetYear(), m2.GetMonth()}})
+					y1 := calendar.NewSolarYearFromDate(t)
+					fd = append(fd, []interface{}{"SolarYear", off, []int{y1.GetYear()}, []int{t.Year()}})
+					s1, s2 := calendar.NewSolarSeasonFromDate(t), calendar.NewSolarSeasonFromYm(t.Year(), int(t.Month()))
+					fd = append(fd, []interface{}{"SolarSeason", off, []int{s1.GetYear(), s1.GetMonth()}, []int{s2.GetYear(), s2.GetMonth()}})
+					h1, h2 := calendar.NewSolarHalfYearFromDate(t), calendar.NewSolarHalfYearFromYm(t.Year(), int(t.Month()))
+					fd = append(fd, []interface{}{"SolarHalfYear", off, []int{h1.GetYear(), h1.GetMonth()}, []int{h2.GetYear(), h2.GetMonth()}})
+					l1 := calendar.NewLunarFromDate(t)
+					fd = append(fd, []interface{}{"Lunar", off, sol(l1.GetSolar()), sol(b)})
+				})
+			}
+		}
+		u["fromDate"] = fd
 		c.emit(u)
 	}
 }
@@ -207,7 +238,12 @@ func c15NavOne(c *ctx, a []int, start int, ns []int) {
 			w := calendar.NewSolarWeekFromYmd(a[0], a[1], a[2], start)
 			wf := [][]int{}
 			ws := []obj{}
-			for _, n := range ns {
+			// plus a few long steps (hundreds and thousands of weeks: across century years) for the plain walk
+			wns := append([]int{}, ns...)
+			if a[0] > 150 && a[0] < 9850 {
+				wns = append(wns, 300, -300, 1000, -1000, 5200, -5200)
+			}
+			for _, n := range wns {
 				var r, b *calendar.SolarWeek
 				p, _ := try(func() { r = w.Next(n, false); b = r.Next(-n, false) })
 				if p {
